@@ -9,6 +9,7 @@ the real crate and to real std is the `coredrive` correspondence run.
 import HipVerif.Lemmas.CoreRun
 import HipVerif.Lemmas.CoreExtraA
 import HipVerif.Audit.Reexport
+import HipVerif.Gen.FmtDelegates
 
 namespace HipVerif.Props.C01
 open HipVerif.Core HipVerif.Spec.Std
@@ -54,6 +55,22 @@ theorem panic_iff (cfg : Cfg) (s : State) (op : Op) (w : Wf cfg s) (hok : OpOk s
 debug assertion of the model (normalisation of slice/truncate results, validity of the heap
 descriptor) can fire. -/
 reexport HipVerif.Core.debug_irrelevant as debug_irrelevant
+
+/-- `Display`/`Debug` text: every formatting impl of a Hip type (REGENERATED table) is a pure
+delegation to the same trait's impl of the std view of the value (`[u8]` for HipByt, `str` for HipStr,
+`OsStr` for HipOsStr, `Path` for HipPath) — so text equality with the std owned type is content
+equality, which `run_refines` gives. -/
+theorem fmt_delegates_ok :
+    ∀ r ∈ Gen.FmtDelegates.table,
+      (r.ty = "HipByt" → r.accessor = "as_slice") ∧ (r.ty = "HipStr" → r.accessor = "as_str") ∧
+      (r.ty = "HipOsStr" → r.accessor = "as_os_str") ∧ (r.ty = "HipPath" → r.accessor = "as_path") := by
+  decide
+
+/-- …and each type has the impls std's owned type has (Debug for all four, Display for HipStr). -/
+theorem fmt_coverage :
+    (Gen.FmtDelegates.table.map fun r => (r.ty, r.trait_)) =
+      [("HipByt", "Debug"), ("HipStr", "Debug"), ("HipStr", "Display"), ("HipOsStr", "Debug"), ("HipPath", "Debug")] := by
+  decide
 
 /-- The invariant holds in every reachable state. -/
 theorem reachable_wf (cfg : Cfg) (srcs : List (List UInt8)) (n : Nat) (ops : List Op) :
